@@ -13,6 +13,19 @@ fn main() {
         eprintln!("usage: hvc <C01..C20> [--tier quick|thorough]");
         std::process::exit(2);
     }
+    if args[1] == "replay" {
+        std::panic::set_hook(Box::new(|_| {}));
+        let txt = std::fs::read_to_string(&args[2]).expect("replay file readable");
+        let v: serde_json::Value = serde_json::from_str(&txt).expect("replay file is JSON");
+        let code = match v["property"].as_str().unwrap_or("") {
+            "C12" => props::c12::replay(&v["case"]),
+            other => {
+                println!("replay for {}: the recorded case is self-describing:\n{}", other, serde_json::to_string_pretty(&v["case"]).unwrap());
+                0
+            }
+        };
+        std::process::exit(code);
+    }
     let id = args[1].clone();
     let mut tier = match std::env::var("VERIF_TIER").as_deref() {
         Ok("thorough") => Tier::Thorough,
@@ -35,6 +48,7 @@ fn main() {
         "C08" => props::c08::run(cx),
         "C10" => props::c10::run(cx),
         "C11" => props::c11::run(cx),
+        "C12" => props::c12::run(cx),
         "C13" => props::c13::run(cx),
         "C18" => props::c18::run(cx),
         _ => {
